@@ -10,7 +10,7 @@ CLAIM = {
          "order (tag insert/strip, field rewrite at fixed offsets, IPv4/TCP/UDP checksum recomputation). A second obligation makes the 7 config "
          "bits of every port symbolic (set through real port_mods) and proves the set of egress ports for output/IN_PORT/FLOOD/ALL/absent ports, "
          "the NO_RECV/NO_RECV_STP receive rules and the rx/tx packet and byte counters."
-         " Also: frames with an IPv4 option word, padded 802.3/LLC frames, frames with a second 802.1Q tag, ICMP errors quoting a datagram, and a port hot-plugged already disabled.",
+         " Also: frames with an IPv4 option word, padded 802.3/LLC frames, frames with a second 802.1Q tag, ICMP errors quoting a datagram, and a port hot-plugged already disabled. O3_table: output:TABLE inside a packet_out list (the entry's rewrites stay with the entry), also after a listener fault; a UDP first fragment under a plain output (known finding).",
  'note': "Trusted: CPython, z3, symx proxies/shims, the reference editor in props/C12.py. Internet checksums in the reference are computed with POX's "
          "own checksum() over the reference's bytes (its equivalence with RFC 1071 is C14's obligation), so checksum *placement and coverage* are "
          "checked here, the summation there. Input frames carry valid checksums and exact lengths.",
